@@ -165,6 +165,17 @@ def check_doc(doc, seeds=(1, 2)):
         page = mr.render(1)
         if mr.title is None or "<header>" not in page or not re.search(r'<h1 class="rg-title-(?:un)?scalable">', page):
             out.append(("C13:plain-first-heading-without-title-header", "heading %r: title %r" % (t["text"], mr.title)))
+    # 1c. the tables of the recipe blocks show the compiled recipes: every cell's text is the amount and name of its node (C04's cell oracle,
+    #     whose expectation is computed from the tree and not by the renderer), for the first trees of every independent recipe
+    from . import c04
+    seen_sigs = set()
+    for gi, g in enumerate(mr.recipes):
+        for r in g:
+            for t in r.recipe_trees[:4]:
+                for sig, detail in c04.check_tree(t, "recipe%d-" % gi):
+                    if sig not in seen_sigs:
+                        seen_sigs.add(sig)
+                        out.append(("C13:recipe-block-table-wrong:" + sig.split(":", 1)[1], detail))
     # 2. no placeholder residue, independent of the RNG, at several scales
     for k in (1, 2, Fraction(3, 2)):
         try:
